@@ -11,8 +11,13 @@
 //            +4 = the BufferedCommunicator object was built before for the AllSet/AllSet interface (build() called twice)
 //            +8 = same, with free() between the two build() calls
 //     pol  : 0 = copying scatter, 1 = accumulating scatter (recording policy in both cases)
-//            +4 = afterwards phase 5: forward with the default policy Dune::CopyGatherScatter<Data> (SizeOne modes only; P5[D:.. T:..])
+//            +4 = afterwards phase 5: forward with the default policy Dune::CopyGatherScatter<Data> (SizeOne modes only; P5[D:.. T:..]) and phase 6: backward,
+//                 both on a SECOND BufferedCommunicator built from the same Interface
 //            +8 = one index set but SEPARATE source and target containers (forward(source,dest)/backward(source,dest))
+//            +16 = one index set, ONE container, but passed twice: forward(data, data) / backward(data, data) (aliased arguments)
+//            +32 = the communicator has the REVERSED rank order of MPI_COMM_WORLD (MPI_Comm_split with key P-1-rank)
+//            +64 = phases 0-2 run on a COPY of the built BufferedCommunicator built from a COPY of the Interface (both leaked: the
+//                  classes have no deep copy; the originals stay alive), phases 5/6 on the original
 //            +2 = afterwards also a DatatypeCommunicator on the same remote indices and flag sets: phase 3 forward(), 4 backward()
 //                 (output fields P3[D:.. T:..] P4[D:.. T:..]; copies only; not modelled, judged by the spec alone)
 //     seed : schedule seed for harness/common/pmpi_sched.c (0 = no perturbation)
@@ -27,6 +32,7 @@
 //   SD[b]                                 1 if a default-constructed Selection is empty (begin()==end())
 //   EQ[x/y/z/w/v]                         Interface::operator==: same flags (Interface(MPI_Comm) ctor) / swapped flags / != is the negation /
 //                                         operator<< prints interfaces() / after free() and build() with swapped flags equal to the swapped one
+//   CP[b]                                 copy-constructed and copy-assigned Interface equal the original (==, !=, communicator())
 //   ST[e/i/n]                             self tests: enumset combine() and operator<< / InterfaceInformation members / build() on
 //                                         remote indices that are not in sync throws RemoteIndicesStateError
 //   DT[q:l.n,l.n/l.n ...]                the (entry, block length) lists of the send / receive MPI datatype per remote process   (deep)
@@ -148,14 +154,14 @@ template<class F> struct Disp<NFS, F> { static void go(int, F&) {} };
 struct Ent { int g, l, a, pub; };
 struct RankSets { std::vector<Ent> S, T; int capS, capT; };
 struct Case {
-  int P, two, ign, src, dst, mode, pol, rebuild, dt, cgs, sep, tc; unsigned long long seed; int NG; std::vector<int> sz; std::vector<RankSets> rs;
+  int P, two, ign, src, dst, mode, pol, rebuild, dt, cgs, sep, tc, al2, rev, cop; unsigned long long seed; int NG; std::vector<int> sz; std::vector<RankSets> rs;
 };
 static bool parse(const std::string& line, Case& c)
 {
   std::istringstream is(line);
   if (!(is >> c.P >> c.two >> c.ign >> c.src >> c.dst >> c.mode >> c.pol >> c.seed >> c.NG)) return false;
   if (c.P < 1 || c.P > 8 || c.NG < 0 || c.NG > 64) return false;
-  c.dt = (c.pol / 2) % 2; c.cgs = (c.pol / 4) % 2; c.sep = (c.pol / 8) % 2; c.pol %= 2;
+  c.dt = (c.pol / 2) % 2; c.cgs = (c.pol / 4) % 2; c.sep = (c.pol / 8) % 2; c.al2 = (c.pol / 16) % 2; c.rev = (c.pol / 32) % 2; c.cop = (c.pol / 64) % 2; c.pol %= 2;
   c.rebuild = c.mode / 4; c.mode %= 4;
   c.sz.resize(c.NG); for (auto& x : c.sz) is >> x;
   c.rs.resize(c.P);
@@ -207,7 +213,7 @@ static void dumplog(std::ostream& os, const std::vector<Rec>& lg)
 { for (std::size_t i = 0; i < lg.size(); ++i) os << (i ? "," : "") << lg[i].l << "." << lg[i].j << "=" << num(lg[i].v); }
 
 template<class Data, class GS>
-static void phases(const Case& c, int rank, Dune::BufferedCommunicator& bc, std::ostream& os)
+static void phases(const Case& c, int rank, Dune::BufferedCommunicator& bc, Dune::BufferedCommunicator& second, std::ostream& os)
 {
   const RankSets& r = c.rs[rank];
   std::vector<int> szS, szT;
@@ -220,6 +226,7 @@ static void phases(const Case& c, int rank, Dune::BufferedCommunicator& bc, std:
     pmpi_sched_reseed(c.seed ? c.seed + 7919ULL * ph : 0);
     pmpi_sched_trace(1);
     if (c.tc) { if (ph == 1) bc.template backward<GS>(src, dstc); else bc.template forward<GS>(src, dstc); }
+    else if (c.al2) { if (ph == 1) bc.template backward<GS>(src, src); else bc.template forward<GS>(src, src); }
     else       { if (ph == 1) bc.template backward<GS>(src);       else bc.template forward<GS>(src); }
     pmpi_sched_trace(0);
     pmpi_sched_reseed(0);
@@ -236,9 +243,15 @@ static void phases(const Case& c, int rank, Dune::BufferedCommunicator& bc, std:
       retag(src, 5, rank, 0, szS);
       if (c.tc) retag(dstc, 5, rank, 1, szT);
       pmpi_sched_reseed(c.seed ? c.seed + 7919ULL * 5 : 0);
-      if (c.tc) bc.template forward<Dune::CopyGatherScatter<Data> >(src, dstc); else bc.template forward<Dune::CopyGatherScatter<Data> >(src);
+      if (c.tc) second.template forward<Dune::CopyGatherScatter<Data> >(src, dstc); else second.template forward<Dune::CopyGatherScatter<Data> >(src);
       pmpi_sched_reseed(0);
       os << " P5[D:"; dump(os, src); os << " T:"; if (c.tc) dump(os, dstc); else dump(os, src); os << "]";
+      retag(src, 6, rank, 0, szS);
+      if (c.tc) retag(dstc, 6, rank, 1, szT);
+      pmpi_sched_reseed(c.seed ? c.seed + 7919ULL * 6 : 0);
+      if (c.tc) second.template backward<Dune::CopyGatherScatter<Data> >(src, dstc); else second.template backward<Dune::CopyGatherScatter<Data> >(src);
+      pmpi_sched_reseed(0);
+      os << " P6[D:"; dump(os, src); os << " T:"; if (c.tc) dump(os, dstc); else dump(os, src); os << "]";
     }
   }
 }
@@ -404,7 +417,7 @@ static std::string run_case(const Case& c, int rank, MPI_Comm comm)
     Dune::Interface inf2(comm), inf3;
     BuildIf b2{&ri, &inf2, c.dst}; Disp<0, BuildIf>::go(c.src, b2);
     BuildIf b3{&ri, &inf3, c.src}; Disp<0, BuildIf>::go(c.dst, b3);        // source and target flag sets exchanged
-    bool x = (inf == inf2) && !(inf != inf2);
+    bool x = (inf == inf2) && !(inf != inf2) && (inf == inf) && !(inf != inf);
     bool y = (inf == inf3);
     bool z = ((inf != inf3) == !y) && ((inf3 == inf) == y);
     std::ostringstream pr, ex; pr << inf;
@@ -428,6 +441,8 @@ static std::string run_case(const Case& c, int rank, MPI_Comm comm)
     bool e = true, ii = true;
     auto cs = Dune::combine(Dune::EnumItem<Attr, 0>(), Dune::EnumItem<Attr, 2>());
     static_assert(std::is_same<decltype(cs), FS<7>::T>::value, "combine() type");
+    static_assert(std::is_same<Dune::Combine<Dune::EnumItem<Attr, 0>, Dune::EnumItem<Attr, 2> >, FS<7>::T>::value, "default TA of Combine");
+    if (!Dune::Combine<Dune::EnumItem<Attr, 0>, Dune::EnumItem<Attr, 2> >::contains(a2) || Dune::Combine<Dune::EnumItem<Attr, 0>, Dune::EnumItem<Attr, 2> >::contains(a1)) e = false;
     for (int a = 0; a < 3; ++a) if (cs.contains((Attr) a) != (a != 1)) e = false;
     { std::ostringstream o; o << Dune::EnumItem<Attr, 2>() << "|" << Dune::EnumRange<Attr, 0, 1>() << "|" << cs; if (o.str() != "2|[0 - 1]|0 2") e = false; }
     Dune::InterfaceInformation ia, ib;
@@ -452,25 +467,49 @@ static std::string run_case(const Case& c, int rank, MPI_Comm comm)
       else bc.build<SV>(pre);
       if (c.rebuild == 2) bc.free();
     }
+    // copies (leaked on purpose: Interface and BufferedCommunicator copy shallowly, see API_COVERAGE.md)
+    const Dune::Interface* use = &inf;
+    {
+      Dune::Interface* ic = new Dune::Interface(inf);           // copy construction
+      Dune::Interface* ia = new Dune::Interface();
+      *ia = inf;                                                  // copy assignment
+      bool same = (*ic == inf) && (*ia == inf) && !(*ic != *ia) && ic->communicator() == inf.communicator();
+      os << " CP[" << same << "]";
+      if (c.cop) use = ic;
+    }
+    Dune::BufferedCommunicator second;                            // a second communicator on the same Interface
+    Dune::BufferedCommunicator* run = &bc;
     if (c.mode == 1) {
       VBV s0, t0; retag(s0, 0, rank, 0, szS); retag(t0, 0, rank, 1, szT);
-      bc.build(s0, c.tc ? t0 : s0, inf);
-      if (c.pol) phases<VBV, RecGSV<1> >(c, rank, bc, os); else phases<VBV, RecGSV<0> >(c, rank, bc, os);
+      bc.build(s0, c.tc ? t0 : s0, *use);
+      if (c.cop) run = new Dune::BufferedCommunicator(bc);
+      if (c.pol) phases<VBV, RecGSV<1> >(c, rank, *run, second, os); else phases<VBV, RecGSV<0> >(c, rank, *run, second, os);
     } else if (c.mode == 3) {
-      bc.build<SV2>(inf);
-      if (c.pol) phases<SV2, RecGS2<1> >(c, rank, bc, os); else phases<SV2, RecGS2<0> >(c, rank, bc, os);
+      bc.build<SV2>(*use);
+      if (c.cgs) second.build<SV2>(inf);
+      if (c.cop) run = new Dune::BufferedCommunicator(bc);
+      if (c.pol) phases<SV2, RecGS2<1> >(c, rank, *run, c.cop ? bc : second, os); else phases<SV2, RecGS2<0> >(c, rank, *run, c.cop ? bc : second, os);
     } else {
-      if (c.mode == 2) { SV s0, t0; retag(s0, 0, rank, 0, szS); retag(t0, 0, rank, 1, szT); bc.build(s0, c.tc ? t0 : s0, inf); }
-      else bc.build<SV>(inf);
-      if (c.pol) phases<SV, RecGS1<1> >(c, rank, bc, os); else phases<SV, RecGS1<0> >(c, rank, bc, os);
+      if (c.mode == 2) { SV s0, t0; retag(s0, 0, rank, 0, szS); retag(t0, 0, rank, 1, szT); bc.build(s0, c.tc ? t0 : s0, *use); }
+      else bc.build<SV>(*use);
+      if (c.cgs) second.build<SV>(inf);
+      if (c.cop) run = new Dune::BufferedCommunicator(bc);
+      if (c.pol) phases<SV, RecGS1<1> >(c, rank, *run, c.cop ? bc : second, os); else phases<SV, RecGS1<0> >(c, rank, *run, c.cop ? bc : second, os);
     }
   }
   if (c.dt) { if (c.mode == 1) dt_phases<VBV>(c, rank, ri, os); else if (c.mode == 3) dt_phases<SV2>(c, rank, ri, os); else dt_phases<SV>(c, rank, ri, os); }
   {   // remote indices out of sync with the index set: build() must refuse
     S.beginResize(); S.endResize();
     bool thrown = false;
-    try { Dune::Interface t; t.build(ri, Dune::AllSet<Attr>(), Dune::AllSet<Attr>()); }
+    Dune::Interface t;
+    try { t.build(ri, Dune::AllSet<Attr>(), Dune::AllSet<Attr>()); }
     catch (Dune::InterfaceBuilder::RemoteIndicesStateError&) { thrown = true; }
+    {   // the object after the rejected build: still empty, free() and strip() are harmless
+      const Dune::Interface& ct = t;
+      if (!ct.interfaces().empty()) thrown = false;
+      t.strip(); t.free();
+      if (!ct.interfaces().empty()) thrown = false;
+    }
     std::string st = os.str();
     std::size_t k = st.find(" ST[");
     k = st.find("/", st.find("/", k) + 1);
@@ -490,6 +529,8 @@ int main(int argc, char** argv)
   std::signal(SIGALRM, on_alarm);
   std::vector<MPI_Comm> sub(np + 1, MPI_COMM_NULL);
   for (int P = 1; P <= np; ++P) MPI_Comm_split(MPI_COMM_WORLD, rank < P ? 0 : MPI_UNDEFINED, rank, &sub[P]);
+  std::vector<MPI_Comm> subrev(np + 1, MPI_COMM_NULL);          // same processes, ranks in reverse order of MPI_COMM_WORLD
+  for (int P = 1; P <= np; ++P) MPI_Comm_split(MPI_COMM_WORLD, rank < P ? 0 : MPI_UNDEFINED, P - 1 - rank, &subrev[P]);
   std::ifstream in(argv[1]);
   std::string line;
   while (std::getline(in, line)) {
@@ -499,7 +540,7 @@ int main(int argc, char** argv)
     std::string mine;
     if (ok && rank < c.P) {
       alarm(tmo);
-      try { mine = run_case(c, rank, sub[c.P]); }
+      try { mine = c.rev ? run_case(c, c.P - 1 - rank, subrev[c.P]) : run_case(c, rank, sub[c.P]); }
       catch (Dune::Exception& e) { mine = std::string("EXC[") + e.what() + "]"; }
       alarm(0);
     }
@@ -514,7 +555,7 @@ int main(int argc, char** argv)
     if (rank == 0) {
       if (!ok) { std::cout << "BADCASE" << std::endl; continue; }
       std::ostringstream o;
-      for (int r = 0; r < c.P; ++r) o << (r ? " ;; " : "") << "r" << r << " " << std::string(rb.data() + displs[r], lens[r]);
+      for (int r = 0; r < c.P; ++r) { int w = c.rev ? c.P - 1 - r : r; o << (r ? " ;; " : "") << "r" << r << " " << std::string(rb.data() + displs[w], lens[w]); }
       std::cout << o.str() << std::endl;
     }
   }
@@ -524,6 +565,7 @@ int main(int argc, char** argv)
   MPI_Reduce(loc, glob, 3, MPI_UNSIGNED_LONG_LONG, MPI_SUM, 0, MPI_COMM_WORLD);
   if (rank == 0) std::cerr << "C05-SHIM sweeps=" << glob[0] << " reordered=" << glob[1] << " delays=" << glob[2] << std::endl;
   for (int P = 1; P <= np; ++P) if (sub[P] != MPI_COMM_NULL) MPI_Comm_free(&sub[P]);
+  for (int P = 1; P <= np; ++P) if (subrev[P] != MPI_COMM_NULL) MPI_Comm_free(&subrev[P]);
   MPI_Finalize();
   return 0;
 }
